@@ -1042,7 +1042,20 @@ def _extreme(a, axis, pick, name):
     _log(name)
     a = asarray(a)
     if axis is not None:
-        raise Unsupported(name + ' along axis')
+        ax = axis % a.ndim
+        n = a.shape[ax]
+        if not isinstance(n, int) or n > 64:
+            raise Unsupported(name + ' along a symbolic axis')
+        oshape = a.shape[:ax] + a.shape[ax + 1:]
+
+        def fn(ix, a=a, ax=ax, n=n):
+            r = a.at(*(ix[:ax] + (0,) + ix[ax:]))
+            for k in range(1, n):
+                r = pick(r, a.at(*(ix[:ax] + (k,) + ix[ax:])))
+            return r
+        if not oshape:
+            return fn(())
+        return SArr(oshape, fn, a.dtype)
     if all(isinstance(d, int) for d in a.shape) and a.size <= 64:
         vals = [a.at(*idx) for idx in itertools.product(*[range(d) for d in a.shape])]
         r = vals[0]
